@@ -117,6 +117,7 @@ type Interp struct {
 	timeTexts []*timeEntry
 	numSeq    int
 	lastDec   []*Term
+	cross     *Solver // secondary solver for cross-checking unsat verdicts
 	rng       map[int]urange // unsigned bounds of variables implied by the path condition
 	maxValues int
 	decList   []*numEntry
